@@ -6,26 +6,30 @@ import (
 	"bufio"
 	"fmt"
 	"io"
+	"os"
 	"os/exec"
 	"strconv"
 	"strings"
+	"sync/atomic"
 	"time"
 )
 
 type Solver struct {
-	kind    string // z3 | z3-new | cvc5
-	cmd     *exec.Cmd
-	in      io.WriteCloser
-	out     *bufio.Reader
-	defined map[int]bool
-	nQuery  int
-	nSat    int
-	nUnsat  int
-	nUnk    int
-	dur     time.Duration
-	log     io.Writer
-	timeout int // ms per query
-	dead    bool
+	kind     string // z3 | z3-new | cvc5
+	cmd      *exec.Cmd
+	in       io.WriteCloser
+	lines    chan string
+	nTimeout int
+	defined  map[int]bool
+	nQuery   int
+	nSat     int
+	nUnsat   int
+	nUnk     int
+	dur      time.Duration
+	log      io.Writer
+	timeout  int // ms per query
+	dead     bool
+	hist     strings.Builder // full script of the current path (only when GOSYM_SLOWQ_DIR is set)
 }
 
 func NewSolver(kind string, timeoutMs int) (*Solver, error) {
@@ -52,12 +56,35 @@ func NewSolver(kind string, timeoutMs int) (*Solver, error) {
 	if err := cmd.Start(); err != nil {
 		return nil, err
 	}
-	s := &Solver{kind: kind, cmd: cmd, in: in, out: bufio.NewReaderSize(out, 1<<16), defined: map[int]bool{}, timeout: timeoutMs}
+	s := &Solver{kind: kind, cmd: cmd, in: in, lines: make(chan string, 256), defined: map[int]bool{}, timeout: timeoutMs}
+	go func(rd *bufio.Reader, ch chan string) {
+		for {
+			line, err := rd.ReadString('\n')
+			if line != "" {
+				ch <- strings.TrimSpace(line)
+			}
+			if err != nil {
+				close(ch)
+				return
+			}
+		}
+	}(bufio.NewReaderSize(out, 1<<16), s.lines)
 	s.send("(set-option :produce-models true)\n")
 	if kind == "cvc5" {
 		s.send("(set-logic QF_BV)\n")
 	}
 	return s, nil
+}
+
+var slowDir = os.Getenv("GOSYM_SLOWQ_DIR")
+var slowSeq int64
+
+func (s *Solver) dumpSlow(d time.Duration, res string) {
+	n := atomic.AddInt64(&slowSeq, 1)
+	if n > 40 {
+		return
+	}
+	os.WriteFile(fmt.Sprintf("%s/slow_%03d_%s_%dms.smt2", slowDir, n, res, d.Milliseconds()), []byte(s.hist.String()), 0o644)
 }
 
 func (s *Solver) send(txt string) {
@@ -85,12 +112,16 @@ func (s *Solver) Reset() {
 		s.send("(set-logic QF_BV)\n")
 	}
 	s.defined = map[int]bool{}
+	s.hist.Reset()
 }
 
 func (s *Solver) Assert(t *Term) {
 	var sb strings.Builder
 	r := t.smtRef(s.defined, &sb)
 	fmt.Fprintf(&sb, "(assert %s)\n", r)
+	if slowDir != "" {
+		s.hist.WriteString(sb.String())
+	}
 	s.send(sb.String())
 }
 
@@ -104,16 +135,41 @@ const (
 
 func (r SatResult) String() string { return [...]string{"unsat", "sat", "unknown"}[r] }
 
+var errSolverTimeout = fmt.Errorf("solver timeout (process killed)")
+
+// readLine waits for the next output line; the solver's own soft timeout (-t) is
+// not always honoured (preprocessing / bit-blasting), so a hard limit of twice the
+// per-query budget kills the process.
 func (s *Solver) readLine() (string, error) {
-	line, err := s.out.ReadString('\n')
-	return strings.TrimSpace(line), err
+	tm := time.NewTimer(time.Duration(2*s.timeout+2000) * time.Millisecond)
+	defer tm.Stop()
+	select {
+	case line, ok := <-s.lines:
+		if !ok {
+			return "", io.EOF
+		}
+		return line, nil
+	case <-tm.C:
+		s.nTimeout++
+		s.dead = true
+		if s.cmd != nil && s.cmd.Process != nil {
+			s.cmd.Process.Kill()
+		}
+		return "", errSolverTimeout
+	}
 }
 
 // CheckWith checks satisfiability of the current assertions plus extra (may be nil).
 // If the result is Sat and wantVars != nil, the values of those vars are returned.
 func (s *Solver) CheckWith(extra *Term, wantVars []*Term) (SatResult, []uint64, error) {
 	t0 := time.Now()
-	defer func() { s.dur += time.Since(t0) }()
+	defer func() {
+		d := time.Since(t0)
+		s.dur += d
+		if slowDir != "" && d > 1500*time.Millisecond {
+			s.dumpSlow(d, "q")
+		}
+	}()
 	s.nQuery++
 	var sb strings.Builder
 	// definitions must be emitted outside the push so that they survive the pop
@@ -129,6 +185,9 @@ func (s *Solver) CheckWith(extra *Term, wantVars []*Term) (SatResult, []uint64, 
 		fmt.Fprintf(&sb, "(assert %s)\n", r)
 	}
 	sb.WriteString("(check-sat)\n")
+	if slowDir != "" {
+		s.hist.WriteString(sb.String())
+	}
 	s.send(sb.String())
 	var res SatResult
 	for {
